@@ -36,6 +36,26 @@ CHECKS = {
    technique="bounded exhaustive lattice enumeration of (state, epoch, force configuration, batch layout) on the real derivative against an algorithmically independent force reference (verif/oracles/force_ref.py)",
    text="The derivative returned by SpecialPerturbations._differentialEquation equals an independent reference (point mass; own-parsed normalised geopotential via Legendre functions and spherical partials; direct third-body formula in 50-digit arithmetic; cannonball SRP x two-disc visible fraction; Schwarzschild term) to a few ulp of the central term + 1e-11 of the perturbations, for every coefficient file, degree/orders up to 20 (70 thorough), every third-body subset, SRP/GR on and off, 200 km..10 Earth radii, epochs across the EOP table incl. kernel-segment edges and calendar rollovers, and (6,K) layouts; each switch adds or removes exactly its oracle term; Sun/Moon/planet positions are continuous across every Chebyshev segment edge of 2014-2022 and agree with an own Chebyshev evaluation and the Almanac Sun/Moon.",
    note="library ECEF<->ECI rotation (C04) and double-precision Julian dates (C05) are trusted; bundled data files; no finite thrust; collision checking and dynamicsFactory not covered"),
+ "C04": dict(level="model_checking", design="§3 C04",
+   technique="bounded exhaustive lattice enumeration (every day of the EOP table, swept minutes/seconds, position/site/angle lattices) against an independent FK5/geodesy reference (verif/oracles/frames_ref.py)",
+   text="Over every UTC day of the bundled EOP table: the loader serves that day's own row; the IAU-76/FK5 matrices agree with an independent reference model; the Earth-fixed frame advances at Earth rate x (dt + dUT1 step read from the table) across all 3198 day boundaries, both leap seconds and the swept minutes/seconds/sub-seconds; eci<->ecef, lla<->ecef, the SEZ pairs, az/el<->ra/dec and RSW/NTW are mutual inverses, rigid and equal to own-formula references on lattices incl. poles, equator, antimeridian, axes and zenith; calendar/sidereal helpers match exact calendar and rational arithmetic; rot1-3 / skewSymmetric satisfy their identities.",
+   note="published FK5 formulae and the two bundled data tables are trusted; frozen-rate GAST approximation and closed-form ecef2lla rounding are designed behaviour; positions within 43 km of the geocentre out of scope; whole-second JD<->datetime belongs to C05"),
+ "C12": dict(level="model_checking", design="§3 C12",
+   technique="bounded exhaustive lattice enumeration of (a,e,i,node,perigee,anomaly) incl. both sides of the circular/equatorial thresholds against an independent textbook element reference (verif/oracles/orbit_ref.py)",
+   text="Every conversion among Cartesian, classical and equinoctial elements (both retrograde families), every anomaly and longitude conversion, both Kepler solvers, singularityCheck, the utils helpers and all three StateConfig.toECI() agree with an independent reference on the complete lattice (2.1M evaluations quick, 25M thorough): 1e-11 normalised on formula paths, a conditioning-derived bound (<=1e-6) plus the designed circular/equatorial classification error on Cartesian extraction; angles in range; Kepler's equation to 1e-9; the three descriptions of one orbit give one state.",
+   note="textbook two-body formulas; retrograde-equatorial longitudes measured in the direction of motion (coe2eci's and Vallado's convention); EQE within 1e-6 rad of its singular inclination excluded as documented; nothing claimed between lattice points"),
+ "C16": dict(level="model_checking", design="§3 C16",
+   technique="bounded exhaustive enumeration of seam placements x turn offsets x all permutations of stacks of <=4 mixed angular/linear observations on the real UKF/GPF against an independent unit-vector UKF reference",
+   text="For every announced sigma weighting (incl. strongly negative centre weight) every stack of up to four simultaneous observations mixing 0..2pi, -pi..pi and linear components in every order is driven on the real UnscentedKalmanFilter (and GeneticParticleFilter) with the predicted angle on / within 1e-9 / within 1e-3 of its seam: posterior, innovation and innovation covariance equal an independent seam-free reference, are unchanged when the wrap point moves, when whole turns are added to measured or predicted angles, and under every permutation (within a derived rounding tolerance); innovations lie in (-pi, pi]; the same with real Azimuth/Elevation/Range classes and a target on the north seam; wrap/residual/circular-mean helpers agree with exact rational and unit-vector references.",
+   note="python fractions/atan2 as arithmetic reference; resonaate's measurement geometry (C04/C14) evaluates the real measurement function; linear dynamics stub; predicted angular spread <= 0.3 rad; GPF resampling draws not covered"),
+ "C17": dict(level="model_checking", design="§3 C17",
+   technique="explicit-state breadth-first exploration of innovation histories on the real detectors (deepcopy branching), constant tails to length 12/50, lock-step reference detector, differential continued-vs-fresh oracle",
+   text="Over every innovation history of length <=4 (quick) / <=6 (thorough) from 5-symbol families of {dimension 1,2,3,8} x {NIS levels around the single-step and the detector's own bound} x {identity, full SPD}, each extended by constant tails to 12 and 50, for thresholds {0.001,0.05,0.5}, windows {1,2,4,10}, delta {0.1,0.8,0.99}: the real StandardNis/SlidingNis/FadingMemoryNis declare a maneuver exactly when the documented statistic reaches the chi-square bound (incl. exact ties), report it as .metric to 1e-11, never lose a detection when the latest innovation is scaled up, behave identically continued-from-history or rebuilt-from-config, and SequentialFilter.checkManeuverDetection raises exactly the documented flags.",
+   note="scipy incomplete-gamma functions as chi-square reference; fading-memory dof uses the running mean dimension as the code comments; arbitrary length-50 histories narrowed to prefix + constant tail"),
+ "C20": dict(level="model_checking", design="§3 C20",
+   technique="bounded exhaustive lattice enumeration of Keplerian arcs, radar geometries and IOD scenarios (real LambertIOD over a real in-memory DB) against an independent Kepler/FK5 reference",
+   text="lambertUniversal, lambertBattin (and lambertGauss on arcs <=30 deg) return the end velocities of every bound Keplerian arc of the lattice (e<=0.7, tof 0.005-0.98 P, both senses, >=5 deg from 0/180/360) and propagating the returned velocity arrives at r2 with the returned v2; radarObs2eciPosition inverts the noise-free radar measurement for ground and space sites; the real LambertIOD on a real in-memory database returns the true state from two noise-free radar observations of a near-circular orbit up to 40 % of a period apart while ignoring other-target, optical, out-of-window and unordered rows; the adaptive filter's Lambert entry points produce impulses that reach the observed point.",
+   note="closed-form two-body oracle (verif/oracles/c20_ref.py) and the FK5/geodesy oracle of C04; whole-second JD round trips (C05); hyperbolic/parabolic transfers and the exact 180 deg singularity out of scope"),
 }
 
 NOT_APPLICABLE = {}
